@@ -129,7 +129,9 @@ func genUnprotected(k any) (any, bool) {
 		chainAsked = true
 		// absent | a single byte string | a list: empty, [c0], [c0 c1], with a text element, with an unparsable element
 		opt := 0
-		if focusHeaders {
+		if simpleUnprotected {
+			opt = 3
+		} else if focusHeaders {
 			opt = []int{0, 3, 4}[rt.Choose("x5chain", 3)] // absent, [c0], [c0 c1]; malformed forms are explored by the unprotected-bucket harness
 		} else {
 			opt = rt.Choose("x5chain", 8)
@@ -166,6 +168,9 @@ func genUnprotected(k any) (any, bool) {
 		}
 		return certs, true
 	case any("io.cncf.notary.signingAgent"):
+		if simpleUnprotected {
+			return nil, false
+		}
 		if focusHeaders {
 			unsignedBoth = rt.Choose("unsigned.present", 2) == 1
 		}
@@ -174,6 +179,9 @@ func genUnprotected(k any) (any, bool) {
 			return agentVal, true
 		}
 	case any("io.cncf.notary.timestampSignature"):
+		if simpleUnprotected {
+			return nil, false
+		}
 		if (focusHeaders && unsignedBoth) || (!focusHeaders && rt.Choose("tst.present", 2) == 1) {
 			tstVal, tstSet = rt.Atom("timestamp.token"), true
 			return tstVal, true
@@ -184,11 +192,16 @@ func genUnprotected(k any) (any, bool) {
 
 // focusHeaders: the protected bucket is arbitrary and the unprotected one takes its few well-formed shapes;
 // otherwise the protected bucket is a fixed conforming one (with symbolic values) and the unprotected one is arbitrary.
+var plainPrior bool // C20: the previous message is a plain conforming one (PS256, no further header)
+var simpleUnprotected bool // only the plain well-formed shape: one certificate, no unsigned attributes
 var focusHeaders = true
 var unsignedBoth bool
 
 func buildFixedProtected() {
 	alg, cty, st := rt.Int64("alg.value"), rt.AtomString("cty.value"), rt.Time(lblSigTime+".value")
+	if plainPrior {
+		alg = -37 // PS256
+	}
 	hAlg, hCty = hdr{true, true, alg}, hdr{true, true, cty}
 	hScheme = hdr{true, true, "notary.x509"}
 	hSigTime = hdr{true, true, st}
@@ -199,7 +212,7 @@ func buildFixedProtected() {
 	theProtected = gocose.ProtectedHeader{int64(1): alg, int64(2): hCrit.val, int64(3): cty, lblScheme: "notary.x509", lblSigTime: st}
 	// optionally one further header with an arbitrary integer label (it may be 33, the label x5chain has in the unprotected
 	// bucket) whose value looks like a certificate list: a signed header that must stay a mere extended attribute
-	if rt.Choose("further.header", 2) == 1 {
+	if !plainPrior && rt.Choose("further.header", 2) == 1 {
 		lbl := rt.Int64("extra1.label")
 		rt.Assume(rt.And(lbl != 1, rt.And(lbl != 2, lbl != 3)))
 		foreignRaw = rt.Atom("further.header.cert.raw")
